@@ -6,7 +6,8 @@ against the hand model's `splitLastDot` / `fixMicro`
 -/
 namespace SqlObjVerif.PyCodec
 
-open SqlObjVerif.Codec (Str PyVal FTok)
+open SqlObjVerif.Codec (Str PyVal FTok SPiece DT)
+open Extracted
 
 theorem splitChr_ne_nil (c : Nat) (s : Str) : splitChr c s ≠ [] := by
   induction s with
@@ -137,5 +138,18 @@ theorem fixMicro_app (p u : Str) (hu : 46 ∉ u) :
 
 theorem fixMicro_nodot (s : Str) (h : 46 ∉ s) : Codec.fixMicro s = s ++ [46, 48] := by
   rw [Codec.fixMicro, Codec.splitLastDot_none s h]
+
+def dtRes : Option DT → Codec.Res PyVal
+  | some d => .ok (Codec.dtOf d)
+  | Option.none => .invalid
+
+theorem model_dt_str (F : List SPiece) (s : Str) : Codec.dtToPython F (.str s) = dtRes (Codec.parseWith F s) := by
+  simp only [Codec.dtToPython, Codec.passes]
+  generalize Codec.parseWith F s = r
+  cases r <;> simp [dtRes]
+
+/-- what the translated code computes on `p ++ '.' ++ u`, stated with the hand model's parser -/
+def DotGoal (fs : Str) (F : List SPiece) (p u : Str) : Prop :=
+  runV (cfgDt fs) dtToPython (.str (p ++ 46 :: u)) = some (dtRes (Codec.strptime F (Codec.fixMicro (p ++ 46 :: u))))
 
 end SqlObjVerif.PyCodec
